@@ -9,7 +9,6 @@ use crate::{
   visitor::{self, *},
 };
 
-use core::convert::TryInto;
 use std::{
   borrow::Cow,
   convert::TryFrom,
@@ -3924,8 +3923,11 @@ where
           1 => {
             if is_ident_time_data_type(self.state.cddl, ident) {
               if let Value::Integer(value) = *value.as_ref() {
-                let dt = Utc.timestamp_opt(value.try_into().unwrap(), 0);
-                if let chrono::LocalResult::None = dt {
+                // an integer outside i64 is not a representable UNIX timestamp
+                let in_range = i64::try_from(value).is_ok_and(|secs| {
+                  !matches!(Utc.timestamp_opt(secs, 0), chrono::LocalResult::None)
+                });
+                if !in_range {
                   self.add_error(format!(
                     "expected time data type, invalid UNIX timestamp {:?}",
                     self.cbor
